@@ -243,8 +243,8 @@ def Elem.dsl : Elem α → Option α
 /-- `add_fiber_padding` on one run.  Only the run's LAST element is ever looked at, and only when it is a
 non-Raman Fiber (a Fiber followed by a Fused is skipped, a RamanFiber is skipped).  Its `design_span_loss`
 becomes the run loss; if that is below `padding`, and the FIRST element of the run is a Fiber, that first
-fibre's `att_in` grows by the missing amount and `design_span_loss += first.att_in` (the whole `att_in`,
-as in the code). -/
+fibre's `att_in` grows by the missing amount and `design_span_loss += padding - this_span_loss`
+(repaired behaviour: the unrepaired code added the first fibre's whole `att_in`). -/
 def padRun (padding : α) (r : List (Elem α)) : List (Elem α) :=
   match r.getLast? with
   | some (.fiber u p) =>
@@ -254,10 +254,10 @@ def padRun (padding : α) (r : List (Elem α)) : List (Elem α) :=
         match r with
         | [_] =>
           let a := p.attIn + padding - this
-          [.fiber u { p with attIn := a, dsl := some (this + a) }]
+          [.fiber u { p with attIn := a, dsl := some (this + (padding - this)) }]
         | .fiber v q :: rest =>
           let a := q.attIn + padding - this
-          .fiber v { q with attIn := a } :: (rest.dropLast ++ [.fiber u { p with dsl := some (this + a) }])
+          .fiber v { q with attIn := a } :: (rest.dropLast ++ [.fiber u { p with dsl := some (this + (padding - this)) }])
         | _ => r.dropLast ++ [.fiber u { p with dsl := some this }]
       else r.dropLast ++ [.fiber u { p with dsl := some this }]
   | _ => r
